@@ -112,3 +112,91 @@ pub open spec fn scan_all(s: Seq<char>) -> SS {
 pub open spec fn canon_str(s: Seq<char>) -> Seq<char> { scan_all(s).out }
 #[verifier::opaque]
 pub open spec fn canon_map(s: Seq<char>) -> IMap<Seq<char>, Seq<char>> { scan_all(s).m }
+// ---- C09: "the accompanying renaming maps the variables to their canonical names injectively"
+// TRUSTED: the decimal rendering of integers by format! is injective
+pub axiom fn axiom_dec_inj(a: int, b: int)
+    requires dec_digits_int(a) == dec_digits_int(b)
+    ensures a == b;
+// every value of the renaming is a name var<i> with i below the counter, and different variables have different names
+pub open spec fn ren_ok(m: IMap<Seq<char>, Seq<char>>, n: int) -> bool {
+    &&& forall|a: Seq<char>| #[trigger] m.contains_key(a) ==> exists|i: int| 0 <= i < n && m[a] == vname(i)
+    &&& forall|a: Seq<char>, b: Seq<char>| #![trigger m.contains_key(a), m.contains_key(b)] m.contains_key(a) && m.contains_key(b) && a != b ==> m[a] != m[b]
+}
+pub proof fn lemma_vname_inj(i: int, j: int)
+    requires vname(i) == vname(j)
+    ensures i == j
+{
+    reveal_strlit("var");
+    let a = vname(i); let b = vname(j);
+    assert(dec_digits_int(i) =~= a.subrange(3, a.len() as int));
+    assert(dec_digits_int(j) =~= b.subrange(3, b.len() as int));
+    axiom_dec_inj(i, j);
+}
+pub proof fn lemma_ren_insert(m: IMap<Seq<char>, Seq<char>>, n: int, name: Seq<char>)
+    requires ren_ok(m, n), n >= 0
+    ensures ren_ok(m.insert(name, vname(n)), n + 1)
+{
+    let m2 = m.insert(name, vname(n));
+    assert forall|a: Seq<char>| #[trigger] m2.contains_key(a) implies exists|i: int| 0 <= i < n + 1 && m2[a] == vname(i) by {
+        if a == name { assert(0 <= n < n + 1 && m2[a] == vname(n)); }
+        else { assert(m.contains_key(a)); let i = choose|i: int| 0 <= i < n && m[a] == vname(i); assert(0 <= i < n + 1 && m2[a] == vname(i)); }
+    }
+    assert forall|a: Seq<char>, b: Seq<char>| #![trigger m2.contains_key(a), m2.contains_key(b)] m2.contains_key(a) && m2.contains_key(b) && a != b implies m2[a] != m2[b] by {
+        if a == name {
+            assert(m.contains_key(b)); let i = choose|i: int| 0 <= i < n && m[b] == vname(i);
+            if vname(n) == vname(i) { lemma_vname_inj(n, i); }
+        } else if b == name {
+            assert(m.contains_key(a)); let i = choose|i: int| 0 <= i < n && m[a] == vname(i);
+            if vname(n) == vname(i) { lemma_vname_inj(n, i); }
+        } else {
+            assert(m.contains_key(a) && m.contains_key(b));
+        }
+    }
+}
+pub proof fn lemma_ren_mono(m: IMap<Seq<char>, Seq<char>>, n: int, n2: int)
+    requires ren_ok(m, n), n <= n2
+    ensures ren_ok(m, n2)
+{
+    assert forall|a: Seq<char>| #[trigger] m.contains_key(a) implies exists|i: int| 0 <= i < n2 && m[a] == vname(i) by {
+        let i = choose|i: int| 0 <= i < n && m[a] == vname(i); assert(0 <= i < n2 && m[a] == vname(i));
+    }
+}
+pub proof fn lemma_scan_ren(st: SS, fuel: nat)
+    requires ren_ok(st.m, st.n), st.n >= 0
+    ensures ren_ok(scan(st, fuel).m, scan(st, fuel).n), scan(st, fuel).n >= st.n
+    decreases fuel
+{
+    if fuel == 0 || st.rest.len() == 0 { } else {
+        let ch = st.rest[0];
+        let r = st.rest.drop_first();
+        let f1 = (fuel - 1) as nat;
+        if ch == '(' {
+            let s1 = SS { rest: r, out: st.out.push('('), ..st };
+            lemma_scan_ren(s1, f1);
+            lemma_scan_ren(scan(s1, f1), f1);
+        } else if ch == ')' {
+        } else if is_quant(ch) && r.len() > 0 && r[0] == '{' {
+            let r2 = r.drop_first();
+            lemma_ren_insert(st.m, st.n, take_until(r2));
+            lemma_scan_ren(SS { rest: drop_until(r2), out: st.out + seq![ch] + "{"@ + vname(st.n) + "}"@, m: st.m.insert(take_until(r2), vname(st.n)), n: st.n + 1 }, f1);
+        } else if ch == '{' {
+            let name = take_until(r);
+            let m2 = if st.m.contains_key(name) { st.m } else { st.m.insert(name, vname(st.n)) };
+            let n2 = if st.m.contains_key(name) { st.n } else { st.n + 1 };
+            if !st.m.contains_key(name) { lemma_ren_insert(st.m, st.n, name); }
+            lemma_scan_ren(SS { rest: drop_until(r), out: st.out + "{"@ + m2[name] + "}"@, m: m2, n: n2 }, f1);
+        } else {
+            lemma_scan_ren(SS { rest: r, out: st.out.push(ch), ..st }, f1);
+        }
+    }
+}
+// C09: the renaming returned by get_canonical_and_renaming is injective
+pub proof fn lemma_canon_map_injective(s: Seq<char>)
+    ensures forall|a: Seq<char>, b: Seq<char>| #![trigger canon_map(s).contains_key(a), canon_map(s).contains_key(b)]
+        canon_map(s).contains_key(a) && canon_map(s).contains_key(b) && a != b ==> canon_map(s)[a] != canon_map(s)[b]
+{
+    reveal(canon_map);
+    let st = SS { rest: s, out: Seq::<char>::empty(), m: IMap::<Seq<char>, Seq<char>>::empty(), n: 0 };
+    assert(ren_ok(st.m, 0));
+    lemma_scan_ren(st, s.len());
+}
